@@ -537,6 +537,51 @@ var C17Via = Register(&Check[CaseViaBr]{
 		if sig != wantSig || ln != wantLen {
 			return viol("GetViaBrSig(%s) = (%#x, %d); the branch parameter by construction gives (%#x, %d)", B(v), uint(sig), ln, uint(wantSig), wantLen)
 		}
+		// absolute part of the oracle: the length is that of the branch value without the RFC 3261 magic cookie
+		// and the documented SigHas*F flags say which special characters that text contains; no branch, no signature
+		absLen, absFlags := 0, sipsp.StrSigId(0)
+		for _, it := range items {
+			if !refTokChars(it.name) || (it.hasVal && (len(it.val) == 0 || it.val[0] != '"') && !refTokChars(it.val)) {
+				// a byte outside the documented set before the branch: the list is rejected, nothing is extracted
+				absLen, absFlags = 0, 0
+				if sig != 0 || ln != 0 {
+					return viol("GetViaBrSig(%s) = (%#x, %d) although the parameter %q=%q before the branch is not well formed", B(v), uint(sig), ln, it.name, it.val)
+				}
+				break
+			}
+			if asciiLower(it.name) == "branch" {
+				if it.hasVal && (len(it.val) == 0 || it.val[0] != '"') {
+					br := it.val
+					if len(br) > 7 && asciiLower(br[:7]) == "z9hg4bk" {
+						br = br[7:]
+					}
+					absLen, absFlags = len(br), refCharFlags(br)
+				} else if it.hasVal {
+					absLen, absFlags = ln, sig&charFlagMask // quoted: only the differential part applies
+				}
+				break
+			}
+		}
+		if ln != absLen || sig&charFlagMask != absFlags {
+			return viol("GetViaBrSig(%s) = (%#x, %d); the branch value has length %d and special-character flags %#x", B(v), uint(sig), ln, absLen, uint(absFlags))
+		}
+		if !found && (sig != 0 || ln != 0) {
+			return viol("GetViaBrSig(%s) = (%#x, %d) without a branch parameter", B(v), uint(sig), ln)
+		}
 		return ok(found && len(items) >= 2, fmt.Sprintf("branch:%v", found))
 	},
 })
+
+// refTokChars: every byte is in the documented name/value set of the non-URI mode (C17: letters, digits,
+// the unreserved marks, '%', '[]/:+$' and '?').
+func refTokChars(b []byte) bool {
+	for _, c := range b {
+		switch {
+		case c >= '0' && c <= '9', c >= 'A' && c <= 'Z', c >= 'a' && c <= 'z':
+		case bytes.IndexByte([]byte("-_.!~*'()%[]/:+$?"), c) >= 0:
+		default:
+			return false
+		}
+	}
+	return true
+}
